@@ -19,6 +19,7 @@ C01 - the reader delivers only intact, exactly delimited RTCM3 frames.
      ITS slice (payload and number are the ones carried by that slice).
 """
 
+from .. import framer_rec
 from .. import decode_engine as de
 from .. import framer_engine as fe
 from .. import framer_replay, gen_streams, stream_corpus
@@ -60,7 +61,21 @@ def run(tier, rep):
             data = data[:6000]
         for fm in (["none", "mixed"] if quick else ["none", "eof", "short", "mixed", "mixed"]):
             tr.add(data, kind="scripted", validate=1, parsed=True, quit=rnd.choice([0, 1, 2]), faults=gen_streams.faults(rnd, 400, fm), nframes=1, nother=1, src=fn)
-    verdicts = tr.judge()
+    # spliced streams: a valid frame is present only as a NON-contiguous subsequence (bytes inserted
+    # inside it - a wrong trailer before the right one, a false header, noise), with an empty answer
+    # (timeout) at every single request position in turn and the client reading on
+    from ..decode_rec import frame_of as _fo
+
+    for si in range(3 if quick else 12):
+        fa, fb = _fo(rnd.choice(pool[:30])), _fo(rnd.choice(pool[:30]))
+        cutp = [len(fa) - 3, 3, rnd.randrange(4, max(5, len(fa) - 3))][si % 3]
+        ins = [bytes(rnd.randrange(256) for _ in range(3)), b"\xd3\x00", bytes(rnd.randrange(256) for _ in range(rnd.randint(1, 9)))][si % 3]
+        data = fb + fa[:cutp] + ins + fa[cutp:] + fb
+        probe = framer_rec.ScriptedStream(data, None)
+        ncalls = len(fe.Traces(rep).add(data, kind="scripted", validate=1, parsed=True, quit=0)[1])
+        for ci in range(min(ncalls, 40)):
+            tr.add(data, kind="scripted", validate=1, parsed=True, quit=si % 3, faults={ci: ("empty",)}, rnd=rnd, nframes=2, nother=1)
+    verdicts = tr.judge(slices=True)
     corp = de.Corpus(rep, bundle)
     for tid, v in verdicts.items():
         m = tr.meta[tid]
